@@ -86,6 +86,16 @@ pub(crate) fn emit(event: Event) {
     });
 }
 
+/// FNV-1a step used by the state digests.
+#[inline]
+#[allow(dead_code)]
+pub(crate) fn digest_u16s(h: &mut u64, xs: &[u16]) {
+    for x in xs {
+        *h ^= *x as u64;
+        *h = h.wrapping_mul(0x0000_0100_0000_01B3);
+    }
+}
+
 /// Snapshot of the internal state of a streaming decoder.
 #[derive(Debug, Clone, Copy, PartialEq, Eq)]
 pub struct StreamSnapshot {
